@@ -52,6 +52,7 @@ def queries(tier, kf):
     if tier == "thorough":
         qs.append(irq("c04-irq-recv-high-nest2", 3, 2, 2, extra={"RECV_IS_IRQ": None}, timeout=3600))
         qs.append(irq("c04-irq-senders-nest3-d3", 3, 3, 3, timeout=7200))
+        qs.append(gens.selftest_query("c04-ir2c-selftest"))
         qs.append(q("c04-machine-irq-2s-d1", 1, 2, 1, 1, extra={"DEPTH": 1}, backend="minisat", timeout=7200))
         qs.append(q("c04-machine-free-1s-1r-d1", 0, 1, 1, 1, extra={"DEPTH": 1}, backend="minisat", timeout=9000))
     return qs
